@@ -366,6 +366,36 @@ theorem C12_chars_in_nested_frame {o : Opts} {cs : List Chunk} {preB postB : Lis
       (hbody (hv.child _ _ fc2 hnew2)))
   simpa [shiftSpec, List.map_map, Function.comp_def, Nat.add_assoc] using this
 
+/-! ### any depth of nesting -/
+
+/-- **C12_chars_in_frames** — a segment of the element loop of a save frame at ANY depth: `ctx` lists the frames around it,
+    outermost first — at each level well-formed elements in front of the frame, its (valid, new) code, well-formed elements behind
+    it (`NestOk`); more than one level needs `max_frame_depth ≠ 1`.  `hbody`: the segment, for every view of the innermost frame
+    (the class theorems `C12_seg_<class>` are stated for every view).  The reports are those of the segment, shifted by the tokens
+    in front (`nestShift`); the content is `nestRes`: at every level what the elements in front denote, the frame (pruned of empty
+    loops at its `save_`), what the elements behind denote. -/
+theorem C12_chars_in_frames {o : Opts} {cs : List Chunk} {preB postB : List Block} {bc : Str} (ctx : List Level) (hne : ctx ≠ [])
+    {T : List TokSpec} (H : SegHost o cs preB postB bc (nestToks ctx T)) (hdeep : ctx.length ≤ 1 ∨ o.maxFrameDepth ≠ 1)
+    (fsb : List Container) (lsb : List Loop) (sp : List (Code × Nat)) (n k need : Nat)
+    (hok : NestOk o ctx ([], []) (fsb, lsb))
+    (hneed : k + need ≤ 2 * T.length + 20) (hsp : ∀ cj ∈ sp, cj.2 ≤ T.length)
+    (hbody : ∀ {path : Path} {put : Container → Cif}, View o path put (innerCode ctx) →
+      Seg o path put (innerCode ctx) false T [] [] fsb lsb sp n k need termFollow) :
+    Reports o cs (shiftSpec ((blocksToks preB).length + 1 + nestShift ctx) sp)
+      (denote o.dia o.normKey preB ++
+        pruneC (.mk bc (nestRes o ctx ([], []) (fsb, lsb)).1 (nestRes o ctx ([], []) (fsb, lsb)).2) :: denote o.dia o.normKey postB) := by
+  have hl := nestToks_length ctx T
+  have := C12_chars_segment H _ _ (shiftSpec (nestShift ctx) sp) (nestN ctx n) (nestK ctx k) (nestNeed ctx need k)
+    (nest_fuel ctx T k need 20 hneed)
+    (by
+      intro cj hcj
+      simp only [shiftSpec, List.mem_map] at hcj
+      obtain ⟨x, hx, rfl⟩ := hcj
+      have := hsp x hx
+      simp only; omega)
+    (fun hv => Seg.nest o H.mfd T fsb lsb sp n k need ctx hne hv true [] [] (Or.inl rfl) hdeep hok hbody)
+  simpa [shiftSpec_shiftSpec, Nat.add_assoc] using this
+
 /-! ### two defects in one text -/
 
 /-- **C12_chars_two_defects** — two segments with one report each, one after the other in a data block (two defects in different
@@ -774,6 +804,44 @@ theorem C12_chars_frame_not_allowed_instance :
         .frame (a!"f") [.plain (.item (a!"_y") (.str (a!"v w") .squote))]] }]) :=
   C12_chars_frame_not_allowed opts0 exCs5 [] [] (a!"a") [.item (a!"_p") (.str (a!"1") .bare)] [] (a!"f")
     [.item (a!"_y") (.str (a!"v w") .squote)] [a!"_p"] rfl exHost5 (by decide) (by decide) (by decide) rfl (by decide)
+
+/-- three levels deep: `data_a ⏎ save_f ⏎ save_g ⏎ save_h ⏎ _x ⏎ save_ ⏎ save_ ⏎ save_ ⏎` -/
+def exCs6 : List Chunk :=
+  [.tk (.data (a!"a")), .ws [.eol], .tk (.save (a!"f")), .ws [.eol], .tk (.save (a!"g")), .ws [.eol], .tk (.save (a!"h")), .ws [.eol],
+   .tk (.name (a!"_x")), .ws [.eol], .tk .saveEnd, .ws [.eol], .tk .saveEnd, .ws [.eol], .tk .saveEnd, .ws [.eol]]
+
+theorem exOk6 : okC .cif2 .end_ [] exCs6 := by
+  simp only [exCs6, okC, List.nil_append]
+  repeat' apply And.intro
+  all_goals first | decide | (intro h; cases h) | exact Or.inl rfl | (right; intro b rest h; cases h) | exact List.all_eq_true.mp (by decide)
+
+def exCtx : List Level := [⟨[], a!"f", []⟩, ⟨[], a!"g", []⟩, ⟨[], a!"h", []⟩]
+
+theorem exHost6 : SegHost optsN exCs6 [] [] (a!"a") (nestToks exCtx (itemsToks [] ++ ((.name, a!"_x") :: itemsToks []))) where
+  store := rfl
+  utf := rfl
+  ok := exOk6
+  fit := by decide
+  first := ⟨100, _, rfl, by decide, by decide⟩
+  mfd := by decide
+  wfPreB := rfl
+  wfBc := by decide
+  fresh := by intro b hb; cases hb
+  wfPostB := rfl
+  hToks := by decide
+
+/-- non-vacuity of `C12_chars_in_frames`: a missing value three frames deep — one report, 5 tokens into the text -/
+theorem C12_chars_in_frames_instance :
+    Reports optsN exCs6 [(CIF_MISSING_VALUE, 5)]
+      [.mk (a!"a") [.mk (a!"f") [.mk (a!"g") [.mk (a!"h") [] [{ category := some [], names := [a!"_x"], packets := [[.unk]] }]] []] []] []] := by
+  have := C12_chars_in_frames (o := optsN) (cs := exCs6) exCtx (by decide) exHost6 (Or.inr (by decide)) []
+    (denoteItems .cif2 id ([] ++ [Item.item (a!"_x") .unk] ++ []) []) [(CIF_MISSING_VALUE, (itemsToks []).length + 1)]
+    ((itemsToks ([] : List Item)).length + 1 + (itemsToks ([] : List Item)).length) (([] : List Item).length + 1 + ([] : List Item).length)
+    (szItems [] + szItems [] + 1)
+    (by simp only [NestOk, exCtx]; decide) (by decide) (by decide)
+    (fun hv => C12_seg_missing_value optsN hv false [] [] (a!"_x") [] [a!"_x"] [] [] rfl (nil_seen optsN) (by decide) (by decide) rfl
+      (by decide))
+  exact this
 
 end C12Frames
 
